@@ -59,6 +59,10 @@ CUTS_Q = [
     ('B4', [(MAINNAME, 3, 6, 'x/inc.conf')], True),
     ('B4', [(MAINNAME, 0, 3, 'x/a.conf'), (MAINNAME, 1, 4, 'x/b.conf')], True),
 ]
+CUTS_Q += [
+    ('B5', [(MAINNAME, 1, 2, 'x/k.conf'), (MAINNAME, 5, 6, 'x/k.conf')], True),      # siblings, same resource
+    ('B5', [(MAINNAME, 1, 2, 'k.conf'), (MAINNAME, 5, 6, 'k.conf')], True),
+]
 CUTS_T = CUTS_Q + [
     ('B1', [(MAINNAME, 1, 8, 'x/inc.conf'), ('x/inc.conf', 1, 3, 'x/i2.conf'), ('x/inc.conf', 3, 6, 'p2.conf')], True),
     ('B1', [(MAINNAME, 8, 9, 'x/tail.conf')], True),
@@ -245,6 +249,11 @@ class C06(P.TextMixin, Harness):
         # inlined text is unbalanced too, so nothing but the fragment's own end can refuse it
         for sid, files in DANGLING:
             us.append({'schema': sid, 'files': files, 'balanced': False, 'base': 'dangling'})
+        # the includer named by a plain path name instead of a URL (resources served for file:// URLs)
+        for base, cuts in (('B1', [(MAINNAME, 1, 5, 'x/inc.conf')]), ('B1', [(MAINNAME, 2, 4, 'x/sub/inc.conf')]),
+                           ('B3', [(MAINNAME, 1, 5, 'inc.conf')]), ('B4', [(MAINNAME, 3, 6, 'x/inc.conf')])):
+            sid, files = make_files(base, cuts)
+            us.append({'schema': sid, 'files': files, 'balanced': True, 'base': base, 'urlstyle': 'path'})
         for i in range(len(REALFILE_STARTS)):
             us.append({'schema': 'S2', 'realfile': i, 'files': [], 'balanced': True, 'base': 'realfile'})
         for base, cuts, bal in (CUTS_Q if tier == 'quick' else CUTS_T) + generated_cuts(tier):
@@ -306,6 +315,11 @@ class C06(P.TextMixin, Harness):
         if 'realfile' in unit:
             return self._realfile(unit, True)
         files = self.text_files(unit, inp)
+        if unit.get('urlstyle') == 'path':
+            # loadConfigFile(schema, file, url='/m/d/x/main.conf'): includes become file:///m/d/... URLs
+            store = {'file:///m/d/' + n: ls for n, ls in files}
+            with common.env_scope(common.all_concrete(inp), {}), P.mem_resources(store):
+                return self._out(P.run_load(self._xml(unit), files[0][1], url='/m/d/' + files[0][0]))
         return self._out(self.real_load(self._xml(unit), files, common.all_concrete(inp)))
 
     def expect(self, unit, inp, real):
